@@ -60,6 +60,15 @@ def run(ctx):
         w = rng.choice(_json.WIDTHS + ["W"])
         n = rng.randrange(0, 24)
         items.append((w, _json.units_for_width([rng.choice([0, 34, 92, 117, 85, 123, 125, 91, 93, 44, 58, 48, 49, 45, 46, 101, 116, 110, 102, 32, 10, 0xD800, 0xDC00, 0xFFFF, 0x10FFFF, rng.randrange(0, 256), rng.randrange(0, 0x110000)]) for _ in range(n)], w)))
+    # long escaped keys / strings (the scratch stream grows while a key or value is still read from it): the
+    # document, a few truncations, and one mutation each
+    for d in _json.long_string_docs(rng):
+        w = rng.choice(_json.WIDTHS + ["W"])
+        u = jsongen.render(d, rng, _json.WNUM[w])
+        items.append((w, u))
+        for k in (len(u) - 1, len(u) // 2, len(u) // 3, 40):
+            items.append((w, u[:k]))
+        items.append((w, _json.mutate(rng, u)))
     # long whitespace runs at every alignment (vector-block boundaries in SIMD builds)
     ws_items = []
     for d in _json.gen_docs(ctx, N // 2):
